@@ -138,6 +138,14 @@ func ruleR5(c *Ctx) *RuleResult {
 					}
 				}
 			}
+			// second chance on the path normal form: the range test may be written out instead of calling withinRange
+			gcA, gcB, gcFacts := false, false, ""
+			if len(idxParams) > 0 {
+				gcA, gcB, gcFacts = rangeGuardOnPaths(c, lt, fn, idxParams)
+			}
+			if len(badA) > 0 && gcA {
+				badA = nil
+			}
 			if len(badA) > 0 {
 				r.add(Obligation{Key: "R5a:" + fk, Rule: "R5a", Clause: clA, Pos: p.FuncPos(fn), Status: Violated, Facts: strings.Join(badA, "\n")})
 			} else {
@@ -176,6 +184,10 @@ func ruleR5(c *Ctx) *RuleResult {
 				}
 				badB = append(badB, fmt.Sprintf("%s at %s can execute with an out-of-range index", instrDesc(p, in), p.InstrPos(in)))
 			}
+			if len(badB) > 0 && gcB {
+				badB = nil
+				_ = gcFacts
+			}
 			if len(badB) > 0 {
 				r.add(Obligation{Key: "R5b:" + fk, Rule: "R5b", Clause: clB, Pos: p.FuncPos(fn), Status: Violated, Facts: strings.Join(badB, "\n")})
 			} else {
@@ -185,6 +197,105 @@ func ruleR5(c *Ctx) *RuleResult {
 	}
 	r.Analysed = append(r.Analysed, fmt.Sprintf("%d list types × %v", len(lts), indexedListMethods))
 	return r
+}
+
+// rangeGuardOnPaths decides R5a/R5b on the guarded commands of fn: a path is "in range" for index parameter i when its
+// guards (with what every path into its loop knows) imply 0 <= i and i < Size(); it is the documented append case when they
+// contain i == Size(). R5a: the index occurs in an indexing / slicing position only on in-range paths. R5b: a path that is
+// not in range for every index has no effect, except exactly one call of the receiver's Add on an append-case path.
+func rangeGuardOnPaths(c *Ctx, lt *types.Named, fn *ssa.Function, idxParams []*ssa.Parameter) (okA, okB bool, facts string) {
+	gc := c.GC(fn)
+	if gc.Undecided != "" {
+		return false, false, ""
+	}
+	sz := methodsOf(c.p, lt)["Size"]
+	if sz == nil {
+		return false, false, ""
+	}
+	st := returnTerm(c.GC(sz))
+	if st == nil {
+		return false, false, ""
+	}
+	S := st.String()
+	okA, okB = true, true
+	for _, g0 := range gc.GCs {
+		guards := append(append([]*Term(nil), g0.Guards...), entryKnowledge(gc, g0.From, 0)...)
+		allIn := true
+		appendCase := false
+		for _, prm := range idxParams {
+			pi := -1
+			for i, q := range fn.Params {
+				if q == prm {
+					pi = i
+				}
+			}
+			P := "p:" + itoa(pi)
+			lower, upper, le, ne := false, false, false, false
+			for _, a := range guards {
+				s := noEpoch(a)
+				switch {
+				case s == "(<= #:0 "+P+")" || s == "(< #:-1 "+P+")":
+					lower = true
+				case s == "(< "+P+" "+S+")":
+					upper = true
+				case s == "(<= "+P+" "+S+")":
+					le = true
+				case s == "(!= "+S+" "+P+")" || s == "(!= "+P+" "+S+")":
+					ne = true
+				case s == "(and (<= #:0 "+P+") (< "+P+" "+S+"))":
+					lower, upper = true, true
+				case s == "(== "+S+" "+P+")" || s == "(== "+P+" "+S+")":
+					appendCase = true
+				}
+			}
+			if le && ne {
+				upper = true
+			}
+			in := lower && upper
+			if !in {
+				allIn = false
+				// R5a: the index must not be used as a position on this path
+				used := false
+				chk := func(t *Term) bool {
+					if (t.Op == "ia" || t.Op == "index") && len(t.Args) == 2 && t.Args[1].any(func(x *Term) bool { return x.String() == P }) {
+						used = true
+					}
+					if t.Op == "slice" {
+						for _, b := range t.Args[1:] {
+							if b.any(func(x *Term) bool { return x.String() == P }) {
+								used = true
+							}
+						}
+					}
+					return false
+				}
+				for _, ef := range g0.Effects {
+					ef.any(chk)
+				}
+				g0.Exit.any(chk)
+				if used {
+					okA = false
+				}
+			}
+		}
+		if !allIn {
+			// R5b: no effect, except the documented append
+			for _, ef := range g0.Effects {
+				if nm, args, ok := effDo(ef); ok && nm == "Add" && len(args) >= 1 && args[0].String() == "p:0" && appendCase {
+					continue
+				}
+				if isStore(ef) && ef.Args[0].Op == "ia" && ef.Args[0].Args[0].Op == "new" {
+					continue // packing the variadic argument of that Add
+				}
+				okB = false
+			}
+			if g0.Exit.Op == "goto" {
+				okB = false // enters a loop without knowing the index is in range
+				okA = false
+			}
+		}
+	}
+	return okA, okB, "decided on the path normal form (range test written out)"
 }
 
 // ---- R7 ZEROTRIP ----
